@@ -515,6 +515,7 @@ Qed.
 Lemma int_same v w : retv_matches IntOps (RVal v) (RVal w) = true -> same_int v w = true.
 Proof. auto. Qed.
 
+Local Opaque bits2f f2bits.
 Lemma ctr_float_step (sf a : f64) c (a' : f64) r : sf = a -> counter_call c = true -> spec_step FloatOps a c = Some (a', r) ->
   exists sf' o, ctr_step_float sf c = Some (sf', o) /\ sf' = a' /\ expected o = r.
 Proof.
@@ -541,7 +542,7 @@ Proof.
   - eexists _, None. repeat split. change (i64_to_Z a + -1)%Z with (i64_to_Z a - i64_to_Z 1)%Z. rewrite i64_sub by reflexivity. reflexivity.
   - eexists _, None. repeat split. rewrite i64_add. now rewrite wrap64_add_r.
   - eexists _, None. repeat split. apply N.ltb_lt in Hb. change (i64_to_Z a + - i64_to_Z b)%Z with (i64_to_Z a - i64_to_Z b)%Z.
-    rewrite i64_sub by auto. now rewrite (wrap64_small b).
+    rewrite i64_sub by auto. now rewrite !(wrap64_small b) by auto.
   - eexists _, None. repeat split. apply N.ltb_lt in Hb. symmetry. now apply wrap64_small.
   - eexists _, (Some a'). repeat split.
 Qed.
